@@ -44,7 +44,8 @@ def _h(*pairs):
 
 COMPILER_HARNESS = _h(("internal/ast/compiler/zz_verif_c05.go", "harness/compiler/zz_verif_c05.go"),
                       ("internal/ast/compiler/zz_verif_c07.go", "harness/compiler/zz_verif_c07.go"),
-                      ("internal/ast/compiler/zz_verif_c15.go", "harness/compiler/zz_verif_c15.go"))
+                      ("internal/ast/compiler/zz_verif_c15.go", "harness/compiler/zz_verif_c15.go"),
+                      ("internal/ast/compiler/zz_verif_c05_seq.go", "harness/compiler/zz_verif_c05_seq.go"))
 
 PROPERTIES["C05"] = {
     "level_text": "Bounded symbolic execution + SMT of the real passes (via compiler.Passes.Process, i.e. after the deep copy, as users run them) on "
@@ -54,7 +55,7 @@ PROPERTIES["C05"] = {
                   "names over {Foo,foo,Bar,...} (case variants on purpose). CUE front end and references into unloaded packages are outside the claim.",
     "bounds": {"schemas": "2 packages, <=3 objects, main object T(1), names over a case-sensitive alphabet of 3-4, pass parameters symbolic over the same alphabets"},
     "runs": lambda ctx: [Run("compiler", ["./internal/ast/compiler"], COMPILER_HARNESS,
-                 ["VerifC05Rename", "VerifC05Prefix", "VerifC05Duplicate", "VerifC05Unspec", "VerifC05ReplaceReference", "VerifC05AllowedObjects"],
+                 ["VerifC05Rename", "VerifC05Prefix", "VerifC05Duplicate", "VerifC05Unspec", "VerifC05ReplaceReference", "VerifC05AllowedObjects", "VerifC05Sequence"],
                  "internal/ast/compiler", needs_leaf=True)]
              + [Run("chains", ["./internal/zzverif/hchains"], CHAINS_HARNESS,
                     ["VerifC05ChainGo", "VerifC05ChainJava", "VerifC05ChainPHP", "VerifC05ChainPython", "VerifC05ChainTypeScript"],
@@ -96,7 +97,8 @@ PROPERTIES["C18"] = {
 # ---------------------------------------------------------------- chains (C06, and the chain parts of C05/C07/C04)
 
 CHAINS_HARNESS = _h(("internal/zzverif/hchains/zz_verif_chains.go", "harness/hchains/zz_verif_chains.go"),
-                    ("internal/zzverif/hchains/zz_verif_c03.go", "harness/hchains/zz_verif_c03.go"))
+                    ("internal/zzverif/hchains/zz_verif_c03.go", "harness/hchains/zz_verif_c03.go"),
+                    ("internal/zzverif/hchains/zz_verif_chains2.go", "harness/hchains/zz_verif_chains2.go"))
 
 PROPERTIES["C06"] = {
     "level_text": "Bounded symbolic execution + SMT of each language's REAL pass chain ((*Language).CompilerPasses() of go/java/php/python/typescript, run through "
@@ -107,7 +109,9 @@ PROPERTIES["C06"] = {
     "bounds": {"main object": "T(1) quick / T(2) thorough + deep spine 2/3", "objects": 3, "leaves": "Nullable, Required, scalar kind, enum member names/values symbolic"},
     "runs": [Run("chains", ["./internal/zzverif/hchains"], CHAINS_HARNESS,
                  ["VerifC06Go", "VerifC06Java", "VerifC06PHP", "VerifC06Python", "VerifC06TypeScript",
-                  "VerifC06GoSpine", "VerifC06JavaSpine", "VerifC06PHPSpine", "VerifC06PythonSpine"],
+                  "VerifC06GoSpine", "VerifC06JavaSpine", "VerifC06PHPSpine", "VerifC06PythonSpine",
+                  "VerifC06GoIntersection", "VerifC06JavaIntersection", "VerifC06PHPIntersection", "VerifC06PythonIntersection",
+                  "VerifC06GoConstants", "VerifC06JavaConstants", "VerifC06PHPConstants", "VerifC06PythonConstants", "VerifC06TypeScriptConstants"],
                  "internal/zzverif/hchains", test_pkg_name="hchains", needs_leaf=True)],
 }
 
@@ -127,6 +131,10 @@ PROPERTIES["C07"] = {
     "bounds": {"frozen": "T(1) main object + 2 struct objects, 5 language chains, 19 user transformations", "merge": "2 (quick) / 3 (thorough) schemas, <=2 objects each"},
     "runs": [Run("chains", ["./internal/zzverif/hchains"], CHAINS_HARNESS,
                  ["VerifC07FrozenGo", "VerifC07FrozenJava", "VerifC07FrozenPHP", "VerifC07FrozenPython", "VerifC07FrozenTypeScript"],
+                 "internal/zzverif/hchains", test_pkg_name="hchains", needs_leaf=True,
+                 quick_entries=["VerifC07FrozenGo", "VerifC07FrozenJava", "VerifC07FrozenTypeScript"]),
+             Run("packages", ["./internal/zzverif/hchains"], CHAINS_HARNESS,
+                 ["VerifC07TwoPackagesGo", "VerifC07TwoPackagesJava", "VerifC07TwoPackagesPHP", "VerifC07TwoPackagesPython", "VerifC07Pipeline"],
                  "internal/zzverif/hchains", test_pkg_name="hchains", needs_leaf=True),
              Run("compiler", ["./internal/ast/compiler"], COMPILER_HARNESS, ["VerifC07UserPasses"], "internal/ast/compiler", needs_leaf=True),
              Run("merge", ["./internal/zzverif/hast"], HAST_HARNESS, ["VerifC07Merge", "VerifC07InputOrder"], "internal/zzverif/hast", test_pkg_name="hast")],
@@ -148,13 +156,13 @@ PROPERTIES["C04"] = {
                  quick_entries=["VerifC06Go", "VerifC06Java", "VerifC06PHP", "VerifC06Python", "VerifC06GoSpine", "VerifC06PHPSpine"]),
              Run("compiler", ["./internal/ast/compiler"], COMPILER_HARNESS,
                  ["VerifC07UserPasses", "VerifC05Rename", "VerifC05Prefix", "VerifC05Duplicate", "VerifC05Unspec", "VerifC05ReplaceReference", "VerifC05AllowedObjects"],
-                 "internal/ast/compiler", needs_leaf=True, panics="violation", judge="panic", quick_entries=["VerifC07UserPasses"]),
+                 "internal/ast/compiler", needs_leaf=True, panics="violation", judge="panic", quick_entries=["VerifC07UserPasses", "VerifC05AllowedObjects", "VerifC05Duplicate"]),
              Run("orderedmap", ["./internal/orderedmap"], {"internal/orderedmap/zz_verif_c19.go": "harness/orderedmap/zz_verif_c19.go"},
                  ["VerifC19Step", "VerifC19History"], "internal/orderedmap", panics="violation", judge="panic"),
              Run("jsonschema_jenny", ["./internal/jennies/jsonschema"], _h(("internal/jennies/jsonschema/zz_verif_c12.go", "harness/jjsonschema/zz_verif_c12.go")),
                  ["VerifC12GenerateSchema"], "internal/jennies/jsonschema", test_pkg_name="jsonschema", needs_leaf=True, panics="violation", judge="panic"),
              Run("hast", ["./internal/zzverif/hast"], HAST_HARNESS, ["VerifC16FromAST"], "internal/zzverif/hast", test_pkg_name="hast", panics="violation", judge="panic"),
-             Run("veneers", ["./internal/zzverif/hveneers"], VENEERS_HARNESS, ["VerifC17OptionRule", "VerifC17BuilderRule", "VerifC17MergeInto", "VerifC17OptionRulePair"],
+             Run("veneers", ["./internal/zzverif/hveneers"], VENEERS_HARNESS, ["VerifC17OptionRule", "VerifC17BuilderRule", "VerifC17MergeInto", "VerifC17OptionRulePair", "VerifC17ArityPair", "VerifC17RenameThenInitialize"],
                  "internal/zzverif/hveneers", test_pkg_name="hveneers", needs_leaf=True, panics="violation", judge="panic")],
 }
 
@@ -190,7 +198,8 @@ PROPERTIES["C16"] = {
 VENEERS_HARNESS = _h(("internal/zzverif/hveneers/zz_verif_c17.go", "harness/hveneers/zz_verif_c17.go"),
                      ("internal/zzverif/hveneers/zz_verif_c17_more.go", "harness/hveneers/zz_verif_c17_more.go"),
                      ("internal/zzverif/hveneers/zz_verif_c09_nilchecks.go", "harness/hveneers/zz_verif_c09_nilchecks.go"),
-                     ("internal/zzverif/hveneers/zz_verif_c14.go", "harness/hveneers/zz_verif_c14.go"))
+                     ("internal/zzverif/hveneers/zz_verif_c14.go", "harness/hveneers/zz_verif_c14.go"),
+                     ("internal/zzverif/hveneers/zz_verif_c17_seq.go", "harness/hveneers/zz_verif_c17_seq.go"))
 
 PROPERTIES["C17"] = {
     "level_text": "Bounded symbolic execution + SMT of rewrite.Rewriter.ApplyTo with one option rule (11 actions) or one builder rule (5 rules) and a symbolic selector, on builders "
@@ -202,7 +211,7 @@ PROPERTIES["C17"] = {
     "level_note": "Bounds: one package, builders Bar/Foo/foo, Foo with 2 fields over 7 kinds; one rule per run (rule sequences are outside the quick bound); "
                   "merge_into/compose/initialize/add_option/add_factory rules are not covered yet. Reference contracts: DESIGN.md appendix B.",
     "bounds": {"builders": "3 (derived by FromAST), Foo: 2 fields x 7 kinds", "rules": "11 option actions + 5 builder rules, one at a time, selector names symbolic incl. case variants and absent names"},
-    "runs": [Run("veneers", ["./internal/zzverif/hveneers"], VENEERS_HARNESS, ["VerifC17OptionRule", "VerifC17BuilderRule", "VerifC17MergeInto", "VerifC17OptionRulePair"],
+    "runs": [Run("veneers", ["./internal/zzverif/hveneers"], VENEERS_HARNESS, ["VerifC17OptionRule", "VerifC17BuilderRule", "VerifC17MergeInto", "VerifC17OptionRulePair", "VerifC17ArityPair", "VerifC17RenameThenInitialize"],
                  "internal/zzverif/hveneers", test_pkg_name="hveneers", needs_leaf=True,
                  allow_unreached=["C17: merge_into lost the destination builder", "C17: merge_into dropped a source option"])],
 }
